@@ -430,6 +430,10 @@ impl Iterator for ItemUseIter<'_> {
                     // TODO: I need to do something here.
                 }
                 syn::UseTree::Glob(_) => {
+                    // A bare `use *;` has no crate to import from.
+                    if self.base_name.is_none() {
+                        continue;
+                    }
                     let base_crate = self.resolve_crate_name();
                     if accept_crate(base_crate.as_str()) {
                         return Some(ImportedType {
